@@ -18,7 +18,8 @@ def run(r):
                 ("HID2", 4, ABCD, 8, [(s + i) % 8 for i in range(3)], {}),
                 ("OPT", 3, AB, 1, [0], {})]
         rnd = [(600, dict(maxlen=5, share=1, named=2, trees=1)), (300, dict(maxlen=6, share=1, named=0, monotone=1, seed_off=1)),
-               (200, dict(maxlen=4, share=1, named=2, base=0, seed_off=2))]
+               (200, dict(maxlen=4, share=1, named=2, base=0, seed_off=2)),
+               (500, dict(tmpl="share", named=0, trees=1, seed_off=5))]
     else:
         fams = [("CAT", 3, AB, 1, [0], {}),
                 ("F1", 3, AB, 48, [s % 48], {}),
@@ -26,7 +27,7 @@ def run(r):
                 ("NM", 3, AB, 24, [s % 24], {}),
                 ("HID2", 3, ABCD, 12, [s % 12], {}),
                 ("OPT", 3, AB, 4, [s % 4], {})]
-        rnd = [(120, dict(maxlen=5, share=1, named=2, trees=1))]
+        rnd = [(120, dict(maxlen=5, share=1, named=2, trees=1)), (100, dict(tmpl="share", named=0, trees=1, seed_off=5))]
     parsefam.run_plan(r, {"props": ["C01"], "families": fams, "random": rnd, "trees": True})
     r.rule = ("model->code: every (grammar, input) of the explored family slices, root + every memoised nonterminal at every position "
               "on the warm context, real end positions compared with Derivation!Ends and outcomes with ParsleyMachine; code->model: random "
